@@ -26,6 +26,10 @@ type Case struct {
 	// HugeN is the index count and Idx the positions probed
 	HugeN uint64   `json:"huge_n,omitempty"`
 	Idx   []uint64 `json:"idx,omitempty"`
+	// big-list mode (lists longer than 65536 entries, where the 4-byte hash-window counter carries into its
+	// second and third byte): the whole-list routines run on all N elements, the spec is evaluated at the
+	// positions in Idx only (N x rounds x 2 hashes for every position would dominate the run)
+	BigList bool `json:"big_list,omitempty"`
 }
 
 // spec: compute_shuffled_index(index, index_count, seed) with SHUFFLE_ROUND_COUNT = rounds
@@ -76,6 +80,50 @@ func runHuge(c *Case, seed [32]byte) *report.Failure {
 	return nil
 }
 
+func runBigList(c *Case, seed [32]byte) *report.Failure {
+	n, rounds := uint64(c.N), uint8(c.Rounds)
+	orig := make([]common.ValidatorIndex, n)
+	for i := range orig {
+		orig[i] = common.ValidatorIndex(1000 + i)
+	}
+	un := append([]common.ValidatorIndex{}, orig...)
+	common.UnshuffleList(rounds, un, seed)
+	sh := append([]common.ValidatorIndex{}, orig...)
+	common.ShuffleList(rounds, sh, seed)
+	for _, i := range c.Idx {
+		i %= n
+		p := specShuffledIndex(i, n, seed, c.Rounds)
+		if un[i] != orig[p] {
+			return report.Failf("UnshuffleList/wrong", "UnshuffleList(L)[%d] = %d, want L[spec(%d)=%d] = %d (n=%d rounds=%d)", i, un[i], i, p, orig[p], n, rounds)
+		}
+		if sh[p] != orig[i] {
+			return report.Failf("ShuffleList/wrong", "ShuffleList(L)[spec(%d)=%d] = %d, want L[%d] = %d (n=%d rounds=%d)", i, p, sh[p], i, orig[i], n, rounds)
+		}
+	}
+	// permutations and mutual inverses, over the whole list
+	for name, out := range map[string][]common.ValidatorIndex{"UnshuffleList": un, "ShuffleList": sh} {
+		seen := make([]bool, n)
+		for _, v := range out {
+			k := uint64(v) - 1000
+			if k >= n || seen[k] {
+				return report.Failf(name+"/not-permutation", "element lost or duplicated (n=%d rounds=%d)", n, rounds)
+			}
+			seen[k] = true
+		}
+	}
+	common.ShuffleList(rounds, un, seed)
+	common.UnshuffleList(rounds, sh, seed)
+	for i := range orig {
+		if un[i] != orig[i] {
+			return report.Failf("ShuffleList/not-inverse", "Shuffle(Unshuffle(L)) != L at %d (n=%d rounds=%d)", i, n, rounds)
+		}
+		if sh[i] != orig[i] {
+			return report.Failf("UnshuffleList/not-inverse", "Unshuffle(Shuffle(L)) != L at %d (n=%d rounds=%d)", i, n, rounds)
+		}
+	}
+	return nil
+}
+
 func bitsLen(x uint64) int {
 	n := 0
 	for ; x > 0; x >>= 1 {
@@ -100,6 +148,9 @@ func run(c *Case) (f *report.Failure) {
 	copy(seed[:], b)
 	if c.HugeN > 0 {
 		return runHuge(c, seed)
+	}
+	if c.BigList {
+		return runBigList(c, seed)
 	}
 	n := uint64(c.N)
 	rounds := uint8(c.Rounds)
@@ -220,7 +271,7 @@ func seedWithPivot(base [32]byte, n uint64, want uint64) ([32]byte, bool) {
 func TestCheck(t *testing.T) {
 	r := report.Begin("C06")
 	defer r.Finish()
-	r.Rule("(seed, rounds, n) triples: an enumerated block (every n in a contiguous range, fixed seeds, several round counts; every rounds value 0..255 at a few sizes) plus rapid-drawn triples incl. seeds searched so that the round-0 pivot is 0, 1 or n-1, sizes straddling multiples of 256 and 8, lists with repeated elements; each case checks every index of the list; plus per-index cases on index ranges of 2^16..2^40 (the largest the spec function is defined for) probing both ends, positions around 2^32 and 24 random positions each. non-trivial = n>=2 and rounds>=1; distinct key = (n, rounds, seed)")
+	r.Rule("(seed, rounds, n) triples: an enumerated block (every n in a contiguous range, fixed seeds, several round counts; every rounds value 0..255 at a few sizes) plus rapid-drawn triples incl. seeds searched so that the round-0 pivot is 0, 1 or n-1, sizes straddling multiples of 256 and 8, lists with repeated elements; each case checks every index of the list; plus per-index cases on index ranges of 2^16..2^40 (the largest the spec function is defined for) probing both ends, positions around 2^32 and 24 random positions each; plus whole-list cases on lists of 65535..200000 entries (the hash-window counter carries beyond its low byte) judged at ~350 sampled positions (around every multiple of 65536 and 256, the pivots, both ends, random) and as whole-list permutations and mutual inverses. non-trivial = n>=2 and rounds>=1; distinct key = (n, rounds, seed)")
 	r.Assume("the reference is compute_shuffled_index transcribed from the phase0 spec with crypto/sha256; its bijectivity is asserted on every case", "UnshuffleList(L)[i] == L[spec(i)] is the relation compute_committee relies on; ShuffleList is its whole-list inverse")
 	replay := func(raw json.RawMessage) *report.Failure {
 		var c Case
@@ -233,7 +284,7 @@ func TestCheck(t *testing.T) {
 	if r.Replay != "" {
 		return
 	}
-	r.Mandatory("n=0", "n=1", "rounds=0", "pivot=0", "pivot=n-1", "n=256k", "n=256k+1", "repeated-elements", "rounds=255")
+	r.Mandatory("big-list", "n=0", "n=1", "rounds=0", "pivot=0", "pivot=n-1", "n=256k", "n=256k+1", "repeated-elements", "rounds=255")
 	account := func(c *Case) {
 		r.Eval(1)
 		if c.N == 0 {
@@ -352,6 +403,43 @@ func TestCheck(t *testing.T) {
 		r.Class(cl)
 		r.NonTrivial(fmt.Sprintf("huge|%d|%d", bitsLen(n), c.Rounds))
 		r.Sample(cl, func() any { return c })
+		return c, run(c)
+	}) {
+		return
+	}
+	// ---- whole-list routines on lists longer than 65536 entries (window counter carries beyond its low byte)
+	if !r.Search(t, "big-lists", 2, r.N(48, 700), func(rt *rapid.T) (any, *report.Failure) {
+		c := &Case{Note: "big-list", BigList: true}
+		switch rapid.IntRange(0, 3).Draw(rt, "nk") {
+		case 0:
+			c.N = 65536 + rapid.IntRange(-2, 600).Draw(rt, "d")
+		case 1:
+			c.N = 65536*rapid.IntRange(1, 3).Draw(rt, "k") + rapid.IntRange(-300, 300).Draw(rt, "d")
+		default:
+			c.N = rapid.IntRange(65537, 200000).Draw(rt, "n")
+		}
+		c.Rounds = rapid.SampledFrom([]int{1, 2, 3, 10, 90}).Draw(rt, "rounds")
+		var seed [32]byte
+		copy(seed[:], rapid.SliceOfN(rapid.Byte(), 32, 32).Draw(rt, "seed"))
+		c.Seed = hex.EncodeToString(seed[:])
+		n := uint64(c.N)
+		c.Idx = []uint64{0, 1, 255, 256, 257, n - 1, n - 2, n / 2}
+		for m := uint64(65536); m < n+65536; m += 65536 {
+			for _, d := range []uint64{0, 1, 2, 255, 256, 257} {
+				c.Idx = append(c.Idx, (m-d)%n, (m+d)%n)
+			}
+		}
+		for k := 0; k < 6; k++ {
+			c.Idx = append(c.Idx, specPivot(seed, k%c.Rounds, n), (specPivot(seed, k%c.Rounds, n)+1)%n)
+		}
+		for k := 0; k < 300; k++ {
+			c.Idx = append(c.Idx, rapid.Uint64Range(0, n-1).Draw(rt, "i"))
+		}
+		r.Eval(1)
+		r.Class("big-list:n>65536")
+		r.Hit("big-list")
+		r.NonTrivial(fmt.Sprintf("big|%d|%d", c.N/65536, c.Rounds))
+		r.Sample("big-list", func() any { cc := *c; cc.Idx = cc.Idx[:12]; return &cc })
 		return c, run(c)
 	}) {
 		return
